@@ -46,6 +46,10 @@ CHECKS = {
    technique='deterministic simulation with fault injection: loss of the section-header table (3 enumerated fault kinds on the simulated disk) with seeded query orders and cursor displacement over the DynamicSegment recovery path; oracle = section view of the intact image',
    text="Scope: the equivalence clause. For every corpus image with PT_DYNAMIC whose dynamic pointers lie in PT_LOAD file extents: section headers lost in three ways (fields zeroed; + table overwritten with noise; + file truncated at the table) x 8/64 seeded query orders with cursor displacement; tags, strings, symbol count (when a hash table is present), symbols, name lookups, relocation tables and table offsets obtained through the DynamicSegment must equal the section view of the intact image field for field. The fault classes are enumerated completely over the eligible images.",
    note="Both views share the tag/symbol decoders: a consistent decode error is invisible (pure decode, not claimed). Preconditions computed by an independent struct-based reader (dst/core/elfraw.py)."),
+ 'C03': dict(engine='idxsim', category='exploration', design_ref='DESIGN.md section 3 / C03',
+   technique='deterministic simulation with fault injection: hash-index events (31-bit hash collisions, bloom false positives) injected as stored bytes on the simulated disk, seeded query workloads with cursor displacement; oracle = linear scan of the symbol table + raw chain walk',
+   text="Scope: the lookup and count clauses. For every SysV/GNU hash section of the corpus (and the same tables reached through the dynamic segment of the image without section headers): seeded query lists (present names, constructed same-hash absent names, same-bucket absent names, random absent, empty, non-ASCII, unhashed symbols) with cursor displacement between queries, with injected chain-word collisions and bloom false positives; completeness and soundness of hash lookup, exactness of get_symbol_by_name, and the recovered count are compared with a linear scan of the linked table and the raw bucket/chain walk.",
+   note="That each enumerated symbol equals its encoded bytes is pure decode and not decided here. The count clause is asserted only for tables satisfying the GNU format invariant (every index >= symoffset is hashed); ld's empty-table convention is counted as outside the envelope. Trusted: reference hash functions and raw table walk in dst/core/elfraw.py."),
 }
 
 def main():
